@@ -716,7 +716,9 @@ def http_feed_data(u: U):
                         "a partial line is kept only if it is within the limit of the line it belongs to "
                         "(start line: max_line_size, field line: max_field_size): a cut can only move the moment of rejection",
                         known=[("F3b", And(Not(first), p.max_field_size < p.max_line_size))],
-                        witness={"tail_len": blen(tail), "first_line": first})
+                        witness={"tail_len": blen(tail), "first_line": first},
+                        # C10: the bytes retained for an incomplete line never exceed what the limits allow (limit + 1)
+                        also_as=("C10.limit.retained_partial_line",))
         # per-call hidden state: the value a fresh call would start with must equal the value carried so far
         if "max_line_length" in head.get("hidden", ()):
             # what the entry code of the NEXT call computes from the object state left behind by this call
